@@ -35,7 +35,9 @@ fn run_cursor(text: &str, ops: &str) -> String {
       "e" => outcome(skip_till_eol(cur), &mut input),
       "p" => outcome(skip_past_eol(cur), &mut input),
       t => {
-        let tg: &'static str = Box::leak(String::from_utf8(crate::c07::unhex(&t[2..])).unwrap().into_boxed_str());
+        // `t:<g1>+<g2>…`: the tag, cut into its own graphemes (the parser matches a tag grapheme by grapheme)
+        let text: String = t[2..].split('+').map(|h| String::from_utf8(crate::c07::unhex(h)).unwrap()).collect();
+        let tg: &'static str = Box::leak(text.into_boxed_str());
         outcome(tag(tg)(cur), &mut input)
       }
     };
@@ -43,6 +45,10 @@ fn run_cursor(text: &str, ops: &str) -> String {
   }
   format!("G={}|{}", gs.iter().map(|g| hexs(g)).collect::<Vec<_>>().join(","), out.join(";"))
 }
+
+/// a tag operation: the tag's text cut into graphemes as the parser cuts it (neighbouring graphemes of a text may
+/// join into one when they are written next to each other as a tag: CR + LF, a letter + a combining mark)
+fn tag_op(t: &str) -> String { format!("t:{}", UnicodeSegmentation::graphemes(t, true).map(|g| hexs(g)).collect::<Vec<_>>().join("+")) }
 
 fn ranges_of(e: &MechError) -> Option<(String, Vec<String>)> {
   // the report carries the source and the ranges
@@ -146,8 +152,8 @@ pub fn generate(seed: u64, thorough: bool, sink: &mut Sink) -> Vec<String> {
         4 => ops.push("e".into()),
         5 => ops.push("p".into()),
         _ => { // a tag that matches the next 1-3 graphemes, or a wrong one
-          if pos < gs.len() && rng.chance(3, 4) { let k = 1 + rng.below(3) as usize; let t: String = gs[pos..(pos + k).min(gs.len())].concat(); ops.push(format!("t:{}", hexs(&t))); pos += k; }
-          else { ops.push(format!("t:{}", hexs(*rng.pick(&["zz", "\n", "a\n", "😀"])))); } }
+          if pos < gs.len() && rng.chance(3, 4) { let k = 1 + rng.below(3) as usize; let t: String = gs[pos..(pos + k).min(gs.len())].concat(); ops.push(tag_op(&t)); pos += k; }
+          else { ops.push(tag_op(*rng.pick(&["zz", "\n", "a\n", "😀"]))); } }
       }
     }
     cases.push(format!("cur\t{}\t{}", hexs(&text), ops.join(","))); sink.hit("cursor");
